@@ -64,6 +64,40 @@ def rule_R1(ctx, R):
     return res
 
 
+def rule_R7(ctx, R):
+    """whoever returns holding must have been given the key for good."""
+    res = RuleResult("R7", "a safe reachable function returns with a lock of its own acquisition still held only if it took an owned "
+                           "ThreadKey (which R5 shows is moved into the returned guard): a borrowed or lent key (`&mut ThreadKey`, "
+                           "`impl Keyable`) comes back to the caller at return, while the hold would live on")
+    from rules_ts import entry_fns
+    for f in entry_fns(ctx):
+        if f.get("unsafe") or "inputs" not in f:
+            continue
+        paths, err, I = ctx.paths(f)
+        if err or not paths:
+            continue
+        if not any(e["k"] in ("ACQ", "TRY") for p in paths for e in p.events):
+            continue
+        if any(p.kind == "cut" for p in paths):
+            continue
+        bad = None
+        for p in paths:
+            if p.kind != "ret":
+                continue
+            held = [r for r, m in p.locks.items() if m in ("W", "R")
+                    and any(e["k"] in ("ACQ", "TRY") and e.get("recv") == r for e in p.events)]
+            if held and "ACQ-GUARD" not in R.roles(f):
+                bad = "returns while %s is still held, but takes no owned ThreadKey: keys it was lent are usable again at once (path: %s)" % (
+                    ", ".join(ctx.arg_name(f, r) for r in held), p.trace()[:300])
+                break
+        if bad:
+            res.bad(Violation("R7", f["path"], "holds-without-key", bad, *_fnloc(ctx, f)))
+        else:
+            res.ok(f["path"])
+    res.need(50, "safe reachable acquiring functions")
+    return res
+
+
 def rule_R5(ctx, R):
     """key conservation in guard-returning acquisitions."""
     res = RuleResult("R5", "ACQ-GUARD: the ThreadKey argument is moved exactly once into the result on every normal path")
